@@ -31,7 +31,11 @@ struct target_state
     pika::concurrency::detail::spinlock mtx;
     pika::execution::detail::agent_ref reg[MAXR + 1];
     bool has_reg[MAXR + 1] = {};
+    pika::execution::detail::agent_ref dup_ctx[MAXR + 1];
+    std::atomic<int> dup_ready[MAXR + 1];
     std::atomic<int> woken[MAXR + 1];
+    std::atomic<int> dup_state[MAXR + 1];    // duplicate waker of a round: 0 none, 1 expected, 2 done
+    std::atomic<int> inside{0};              // the target's body is running (double execution detector)
     pika::threads::detail::thread_id_type tid;
     bool waker_os[MAXR + 1] = {};
     bool spawn_inside[MAXR + 1] = {};
@@ -39,6 +43,8 @@ struct target_state
     target_state()
     {
         for (auto& w : woken) w = 0;
+        for (auto& d : dup_state) d = 0;
+        for (auto& d : dup_ready) d = 0;
     }
 };
 
@@ -146,6 +152,8 @@ int main(int argc, char** argv)
                         {
                             auto ctx = S->reg[i];
                             S->has_reg[i] = false;
+                            S->dup_ctx[i] = ctx;
+                            S->dup_ready[i] = 1;
                             ev("wake").i("t", t + 1).i("r", i).i("os", os).i("k", record ? actor_key() : 0).done();
                             S->woken[i] = 1;
                             for (int s = 0; s < spin * 50; ++s) asm volatile("" ::: "memory");
@@ -160,6 +168,21 @@ int main(int argc, char** argv)
                     }
                     ++finished;
                 };
+                // a second, independent wake-up of the same wait (like a timer racing the notifier): an OS
+                // thread that resumes the same agent at about the same time, outside any lock
+                if (!record && R.chance(1, 3))
+                {
+                    S->dup_state[i] = 1;
+                    int dspin = (int) R.below(600);
+                    os_threads.emplace_back([&, S, i, dspin] {
+                        while (!S->dup_ready[i].load()) {}
+                        for (int s = 0; s < dspin; ++s) asm volatile("" ::: "memory");
+                        S->dup_ctx[i].resume();
+                        S->dup_state[i] = 2;
+                        ++finished;
+                    });
+                    ++nactors;
+                }
                 ++nactors;
                 S->waker_os[i] = os;
                 S->spawn_inside[i] = R.chance(1, 2);
@@ -202,9 +225,15 @@ int main(int argc, char** argv)
                     // agent stays valid until resume() has returned)
                     do {
                         ev("suspend").i("t", t + 1).i("r", i).done();
+                        S->inside = 0;
                         pika::execution::this_thread::detail::suspend("wake_harness");
+                        if (S->inside.exchange(1) != 0) ev("double_run").i("t", t + 1).i("r", i).done();
                         ++progress;
                     } while (!S->woken[i].load());
+                    // the round ends only when the duplicate waker, if any, is done with the agent (its
+                    // resume may have been absorbed by the notifier's: it must not be waited for by
+                    // suspending; the waker is a plain OS thread, so this short spin cannot starve it)
+                    while (S->dup_state[i].load() == 1) {}
                     {
                         std::lock_guard<pika::concurrency::detail::spinlock> l(S->mtx);
                     }
